@@ -227,7 +227,7 @@ theorem readSv_writeSv (R : Render) (b : Sv) (hv : b.multiplier ≠ 0)
         Except.pure, svCode_ne_zero b.multiplier hv, svCode_svCode b.multiplier hv]
 
 /-- non-vacuity of the renderer hypotheses: integers rendered as integers -/
-def intRender : Render := { repr := fun q => showInt q.floor, g := fun q => showInt q.floor, uni := id }
+def intRender : Render := { repr := fun q => showInt q.floor, uni := id }
 
 example : readBpm (intRender.line (writeBpm { offset := 1000, bpm := 120, kiai := true })) =
     .ok { offset := 1000, bpm := 120, kiai := true } := by
